@@ -69,7 +69,7 @@ __CPROVER_ensures(__CPROVER_return_value <= 8 * count)
 
 /* Ghost indices shared by the ring contracts below; the harness fixes them, nothing else assigns them:
  * g_el_i = a ring position, g_el_k = a byte position in a 32-byte message. */
-#if defined(EL_BORROMEAN_VERIFY) || defined(EL_BORROMEAN_SIGN) || defined(EL_WL_KEYS_MSG) || defined(EL_SJ_PUBKEYS) || defined(EL_SJ_GENRAND)
+#if defined(EL_BORROMEAN_VERIFY) || defined(EL_BORROMEAN_SIGN) || defined(EL_WL_KEYS_MSG) || defined(EL_SJ_PUBKEYS) || defined(EL_SJ_GENRAND) || defined(EL_SJ_GENMSG)
 size_t g_el_i, g_el_k;
 #endif
 
@@ -120,6 +120,107 @@ __CPROVER_ensures(g_ck_n == __CPROVER_old(g_ck_n) + 1 && g_ck_ret == __CPROVER_r
 __CPROVER_ensures(g_el_i < (size_t)n_keys ==> g_ck_key_x0 == keys[g_el_i].x.n[0])
 __CPROVER_ensures(g_ck_keys_obj == __CPROVER_POINTER_OBJECT(keys) && g_ck_keys_off == __CPROVER_POINTER_OFFSET(keys))
 __CPROVER_ensures(g_el_k < 32 ==> g_ck_msg_k == msg32[g_el_k])
+;
+#endif
+
+/* ------------------------------- secp256k1_surjection_compute_public_keys (PROVED: C11.compute_pubkeys) */
+#ifdef EL_SJ_PUBKEYS
+/* Ring keys (output tag minus selected input tag) are oracle values; what the callers rely on is the
+ * frame, the count/padding precondition and the ring position of the real input.  The real function
+ * always returns 1; the contract lets it fail so that the callers' handling of 0 is an obligation. */
+int g_pk_n, g_pk_ret, g_pk_args_match, g_pk_ring_null; size_t g_pk_npub, g_pk_ntags, g_pk_input_index, g_pk_ring;
+const secp256k1_generator *g_pk_tags_expect, *g_pk_out_expect; const unsigned char *g_pk_used_expect;    /* harness only */
+size_t g_pk_keys_obj, g_pk_keys_off; uint64_t g_pk_key_x0;
+static int secp256k1_surjection_compute_public_keys(secp256k1_gej *pubkeys, size_t n_pubkeys, const secp256k1_generator *input_tags, size_t n_input_tags, const unsigned char *used_tags, const secp256k1_generator *output_tag, size_t input_index, size_t *ring_input_index)
+__CPROVER_requires(n_pubkeys <= 256 && n_input_tags <= 256 && n_pubkeys <= n_input_tags && __CPROVER_w_ok(pubkeys, n_pubkeys * sizeof(secp256k1_gej)))
+__CPROVER_requires(__CPROVER_r_ok(input_tags, n_input_tags * sizeof(secp256k1_generator)) && __CPROVER_r_ok(used_tags, (n_input_tags + 7) / 8) && __CPROVER_r_ok(output_tag, sizeof(secp256k1_generator)))
+__CPROVER_requires(ring_input_index == NULL || __CPROVER_w_ok(ring_input_index, sizeof(size_t)))
+/* the bitmap has no bit at a position >= n_input_tags, and n_pubkeys is its bit count (the value the
+ * count_bits_set contract returned last, for this many bytes) */
+__CPROVER_requires(n_input_tags % 8 == 0 || (used_tags[(n_input_tags + 7) / 8 - 1] >> (n_input_tags % 8)) == 0)
+#ifdef EL_LOG_COUNT_BITS
+__CPROVER_requires(n_pubkeys == g_cb_ret && g_cb_count == (n_input_tags + 7) / 8)
+#endif
+__CPROVER_assigns(__CPROVER_object_whole(pubkeys); ring_input_index != NULL: *ring_input_index;
+                  g_pk_n, g_pk_ret, g_pk_args_match, g_pk_ring_null, g_pk_npub, g_pk_ntags, g_pk_input_index, g_pk_ring, g_pk_keys_obj, g_pk_keys_off, g_pk_key_x0)
+__CPROVER_ensures(__CPROVER_return_value == 0 || __CPROVER_return_value == 1)
+__CPROVER_ensures(ring_input_index != NULL ==> (*ring_input_index < n_pubkeys || *ring_input_index == __CPROVER_old(*ring_input_index)))
+__CPROVER_ensures(g_pk_n == __CPROVER_old(g_pk_n) + 1 && g_pk_ret == __CPROVER_return_value && g_pk_npub == n_pubkeys && g_pk_ntags == n_input_tags &&
+                  g_pk_input_index == input_index && g_pk_ring_null == (ring_input_index == NULL) &&
+                  g_pk_args_match == (input_tags == g_pk_tags_expect && output_tag == g_pk_out_expect && used_tags == g_pk_used_expect))
+__CPROVER_ensures(ring_input_index != NULL ==> g_pk_ring == *ring_input_index)
+__CPROVER_ensures(g_el_i < n_pubkeys ==> g_pk_key_x0 == pubkeys[g_el_i].x.n[0])
+__CPROVER_ensures(g_pk_keys_obj == __CPROVER_POINTER_OBJECT(pubkeys) && g_pk_keys_off == __CPROVER_POINTER_OFFSET(pubkeys))
+;
+#endif
+
+/* ---------------------------------------------- secp256k1_surjection_genmessage (PROVED: C11.genmessage) */
+#ifdef EL_SJ_GENMSG
+int g_gm_n, g_gm_args_match; size_t g_gm_ntags; unsigned char g_gm_msg_k;
+const secp256k1_generator *g_gm_tags_expect, *g_gm_out_expect;     /* harness only */
+static void secp256k1_surjection_genmessage(const secp256k1_hash_ctx *hash_ctx, unsigned char *msg32, const secp256k1_generator *ephemeral_input_tags, size_t n_input_tags, const secp256k1_generator *ephemeral_output_tag)
+__CPROVER_requires(hash_ctx != NULL && __CPROVER_w_ok(msg32, 32) && __CPROVER_r_ok(ephemeral_input_tags, n_input_tags * sizeof(secp256k1_generator)) && __CPROVER_r_ok(ephemeral_output_tag, sizeof(secp256k1_generator)))
+__CPROVER_assigns(__CPROVER_object_upto(msg32, 32), g_gm_n, g_gm_args_match, g_gm_ntags, g_gm_msg_k)
+__CPROVER_ensures(g_gm_n == __CPROVER_old(g_gm_n) + 1 && g_gm_ntags == n_input_tags && g_gm_args_match == (ephemeral_input_tags == g_gm_tags_expect && ephemeral_output_tag == g_gm_out_expect))
+__CPROVER_ensures(g_el_k < 32 ==> g_gm_msg_k == msg32[g_el_k])
+;
+#endif
+
+/* ================================= C08: generator / Pedersen oracles (algebraic residue) ================ */
+/* on-curve verdict for an x coordinate (x^3 + 7 is a square): ORACLE with verdict log (last call) */
+#ifdef EL_X_ON_CURVE
+int g_oc_n, g_oc_ret; secp256k1_fe g_oc_x;
+static int secp256k1_ge_x_on_curve_var(const secp256k1_fe *x)
+__CPROVER_requires(__CPROVER_r_ok(x, sizeof(*x)) && fe_mag(x, 1))
+__CPROVER_assigns(g_oc_n, g_oc_ret, g_oc_x)
+__CPROVER_ensures(__CPROVER_return_value == 0 || __CPROVER_return_value == 1)
+__CPROVER_ensures(g_oc_n == __CPROVER_old(g_oc_n) + 1 && g_oc_ret == __CPROVER_return_value && FE_EQ(g_oc_x, *x))
+;
+#endif
+/* lift x to the curve point with square y: ORACLE (square root) with verdict log.  r->x = *x and
+ * r->infinity = 0 are structural facts of the body (two assignments), PROVED by C08.set_xquad_frame. */
+#ifdef EL_SET_XQUAD
+int g_xq_n, g_xq_ret; secp256k1_fe g_xq_x; secp256k1_ge g_xq_r;
+static int secp256k1_ge_set_xquad(secp256k1_ge *r, const secp256k1_fe *x)
+__CPROVER_requires(__CPROVER_w_ok(r, sizeof(*r)) && __CPROVER_r_ok(x, sizeof(*x)) && fe_mag(x, 1))
+__CPROVER_assigns(*r, g_xq_n, g_xq_ret, g_xq_x, g_xq_r)
+__CPROVER_ensures(__CPROVER_return_value == 0 || __CPROVER_return_value == 1)
+__CPROVER_ensures(r->infinity == 0 && FE_EQ_OLD(r->x, *x) && fe_mag(&r->y, 1))
+__CPROVER_ensures(g_xq_n == __CPROVER_old(g_xq_n) + 1 && g_xq_ret == __CPROVER_return_value && FE_EQ_OLD(g_xq_x, *x) && GE_EQ(g_xq_r, *r))
+;
+#endif
+/* quadratic-residue verdict: ORACLE with verdict log (last call).  Without -DVERIFY the name
+ * secp256k1_fe_is_square_var is a macro for secp256k1_fe_impl_is_square_var. */
+#ifdef EL_IS_SQUARE
+int g_sq_n, g_sq_ret; secp256k1_fe g_sq_x;
+static int secp256k1_fe_impl_is_square_var(const secp256k1_fe *x)
+__CPROVER_requires(__CPROVER_r_ok(x, sizeof(*x)) && fe_mag(x, 8))
+__CPROVER_assigns(g_sq_n, g_sq_ret, g_sq_x)
+__CPROVER_ensures(__CPROVER_return_value == 0 || __CPROVER_return_value == 1)
+__CPROVER_ensures(g_sq_n == __CPROVER_old(g_sq_n) + 1 && g_sq_ret == __CPROVER_return_value && FE_EQ(g_sq_x, *x))
+;
+#endif
+/* bG + vH: ORACLE with argument/result log (single call) */
+#ifdef EL_PEDERSEN_ECMULT
+#include "src/modules/generator/pedersen.h"
+int g_pe_n; secp256k1_scalar g_pe_sec; uint64_t g_pe_value; secp256k1_ge g_pe_genp; secp256k1_gej g_pe_r;
+static void secp256k1_pedersen_ecmult(const secp256k1_ecmult_gen_context *ecmult_gen_ctx, secp256k1_gej *rj, const secp256k1_scalar *sec, uint64_t value, const secp256k1_ge* genp)
+__CPROVER_requires(ecmult_gen_ctx != NULL && __CPROVER_w_ok(rj, sizeof(*rj)) && __CPROVER_r_ok(sec, sizeof(*sec)) && scalar_ok(sec) && __CPROVER_r_ok(genp, sizeof(*genp)) && ge_ok(genp) && !genp->infinity)
+__CPROVER_assigns(*rj, g_pe_n, g_pe_sec, g_pe_value, g_pe_genp, g_pe_r)
+__CPROVER_ensures(gej_ok(rj))
+__CPROVER_ensures(g_pe_n == __CPROVER_old(g_pe_n) + 1 && SC_EQ_OLD(g_pe_sec, *sec) && g_pe_value == value && GE_EQ_OLD(g_pe_genp, *genp) && GEJ_EQ(g_pe_r, *rj))
+;
+#endif
+
+/* ================================= C16: whitelist helpers ============================================== */
+/* H(ser33(P)) as a scalar: ORACLE (hash output; fails for infinity / out-of-range digest), verdict logged */
+#ifdef EL_WL_HASH_PUBKEY
+int g_hp_n, g_hp_ret; secp256k1_scalar g_hp_out;
+static int secp256k1_whitelist_hash_pubkey(const secp256k1_hash_ctx *hash_ctx, secp256k1_scalar* output, secp256k1_gej* pubkey)
+__CPROVER_requires(hash_ctx != NULL && __CPROVER_w_ok(output, sizeof(*output)) && __CPROVER_rw_ok(pubkey, sizeof(*pubkey)) && gej_ok(pubkey))
+__CPROVER_assigns(*output, *pubkey, g_hp_n, g_hp_ret, g_hp_out)
+__CPROVER_ensures((__CPROVER_return_value == 0 || __CPROVER_return_value == 1) && scalar_ok(output) && gej_ok(pubkey))
+__CPROVER_ensures(g_hp_n == __CPROVER_old(g_hp_n) + 1 && g_hp_ret == __CPROVER_return_value && SC_EQ(g_hp_out, *output))
 ;
 #endif
 
